@@ -1,5 +1,6 @@
 (* C20 property theorems: statements closed by [exact lemma] + Print Assumptions. *)
-From V Require Import Common.Base C20.Protocol C20.ProtocolProofs C20.CtxLTS C20.CtxProofs.
+From V Require Import Common.Base C20.Protocol C20.ProtocolProofs C20.CtxLTS C20.CtxSpec C20.CtxProofs
+  C20.CtxMonA C20.CtxMonB C20.CtxMonC.
 
 (* writeUint32 / readUint32: little-endian round trip modulo 2^32, any trailing bytes *)
 Theorem uint32_roundtrip : forall n r, read32 (le32 n ++ r) = Some (n mod 4294967296, r).
@@ -26,3 +27,32 @@ Theorem deadlock_free : forall s, reachable s ->
   exists a s' l, system a = true /\ exec s a = Some (s', l).
 Proof. intros s R. exact (progress_inv s (sinv_reachable s R)). Qed.
 Print Assumptions deadlock_free.
+
+(* Every trace of the LTS - any number of client calls, any interleaving -
+   satisfies the executable specification history_ok (rules S1-S9 of
+   CtxSpec.v): Rebuild returns the complete result of exactly one build that
+   had not been returned before the call (rebuild_returns_one_build), a
+   sequential Rebuild starts a new build that sees all earlier edits
+   (sequential_rebuild_sees_edits), Cancel and Dispose return only after the
+   builds started before the call have ended, nothing happens after a Dispose
+   returned.  history_ok is the very function evaluated on the histories
+   recorded from the real pkg/api code. *)
+Theorem history_checker_sound : forall tr s, run init tr s -> history_ok tr = true.
+Proof. exact history_sound. Qed.
+Print Assumptions history_checker_sound.
+
+(* When a Dispose call returns - whichever of several concurrent Dispose
+   calls it is - the context is disposed, no build is active and no thread is
+   inside rebuildImpl. *)
+Theorem dispose_returns_after_end : forall tr s a s' c v,
+  run init tr s -> exec s a = Some (s', LRet c OpDispose v) ->
+  disposed s' = true /\ active s' = None /\
+  (forall t b, (t < nt s')%nat -> phase_of (t_pc (thr s' t)) = Some b -> False).
+Proof. exact dispose_return_state. Qed.
+Print Assumptions dispose_returns_after_end.
+
+(* A disposed context stays disposed and never starts another build. *)
+Theorem disposed_starts_nothing : forall s a s' l,
+  disposed s = true -> exec s a = Some (s', l) -> nb s' = nb s /\ disposed s' = true.
+Proof. exact disposed_no_new_build. Qed.
+Print Assumptions disposed_starts_nothing.
